@@ -125,6 +125,12 @@ def run(run):
             mixed.append(c)
         stream.replay_cases_shared(run, mixed, 'faults')
         run.notes['scans_through_shared_decoders'] = len(mixed)
+        # the damaged-descriptor cases once more in processes that have read in-stream table definitions before
+        und = [c for c in dam if any(f.startswith('undef') for f in c['faults']) and not c['mode'].get('ive')]
+        step = max(1, len(und) // (4000 if thorough else 800))
+        und = und[r % step::step]
+        stream.replay_cases_after_definitions(run, und, 'faults')
+        run.notes['scans_after_in_stream_definitions'] = len(und)
         npool = prefixes_and_suffixes(run, allcases)
         run.notes['pool_messages_truncated_at_every_octet'] = npool
         damaged = [c for c in allcases if any(f not in ('none', 'cut') for f in c['faults']) and not c['mode']['info'] and not c['mode']['filt']
